@@ -99,7 +99,7 @@ def opYaml : RM Res := do
       | _ => pure false)
     let preds := [P "C19.nopanic" (true, "")] ++ (match exp with
       | some _ => [P "C19.parses" (false, s!"a file in the documented format / written by to_yaml was rejected with {kind}")]
-      | none => [])
+      | none => if hasExp == 2 then [P "C19.rejects" (true, "")] else [])
     pure { corr := if ok then "OK" else "MISMATCH", detail := if ok then "" else s!"reader Err({kind}) but the model says otherwise",
            preds := preds, tags := [s!"err={kind}"] }
   else
@@ -108,6 +108,8 @@ def opYaml : RM Res := do
       | .ok m => ypClose 0.0 got (ypOfModel m) || ypClose 1e-15 got (ypOfModel m)
       | .error _ => false
     let mut preds := [P "C19.nopanic" (true, "")]
+    if hasExp == 2 then
+      preds := preds ++ [P "C19.rejects" (false, s!"a file that is not in the documented format was accepted: lengths {got.geo} offsets {got.off}")]
     match exp with
     | some e =>
       -- geometry, signs, dof exactly; offsets to the printed precision (4 decimals of a degree)
